@@ -28,6 +28,27 @@ def run(ctx):
         m = re.search(r'(assertion failed "[^"]*"|SUMMARY: \S+ \S+|runtime error: [^\n]*)', err)
         violations.append({'signature': 'crash:' + (m.group(1) if m else 'abort'), 'bytes': cs[i].hex(), 'stderr': err[-2500:],
                            'what': 'libdbus aborted / sanitizer report while parsing or reading back these bytes'})
+    # arrays at the 2^26-byte limit (the harness builds them; TLC applies the length clause to the numbers)
+    big = []
+    for el in ('y', 'q', 'u', 'x', 'b') if ctx.quick else ('y', 'n', 'q', 'i', 'u', 'b', 'x', 't', 'd'):
+        sz = {'y': 1, 'n': 2, 'q': 2, 'x': 8, 't': 8, 'd': 8}.get(el, 4)
+        for nb in ((1 << 26), (1 << 26) + sz) if ctx.quick else ((1 << 26) - sz, (1 << 26), (1 << 26) + sz, (1 << 26) + 8 * sz):
+            big.append((el, nb))
+    from concurrent.futures import ThreadPoolExecutor
+    with ThreadPoolExecutor(max_workers=5) as ex:
+        bres = list(ex.map(lambda t: vlib.run_harness(ctx.build, 'bigarr', ['%s %d' % t]), big))
+    brecs = []
+    for (el, nb), (bo, bc) in zip(big, bres):
+        if bc or not bo or bo[0] is None:
+            violations.append({'signature': 'crash:bigarr:%s:%d' % (el, nb), 'stderr': (bc[0][1] if bc else '')[-2000:],
+                               'what': 'libdbus aborted on a message with one array of %d bytes' % nb})
+            continue
+        brecs.append(dict(bo[0], k='bigarr', elem=ord(el), nbytes=nb))
+    bbad = vlib.check_cases(brecs, shard=50)
+    for i in bbad:
+        r = brecs[i]
+        violations.append({'signature': 'bigarr:%s:%d:acc=%d' % (chr(r['elem']), r['nbytes'], r['acc']), 'case': r,
+                           'what': 'an array of this many bytes was %s although the specification says the opposite (limit 2^26 bytes)' % ('accepted' if r['acc'] else 'refused')})
     bad = vlib.check_cases(recs, shard=500, devnames=('LenientUniqueName',))
     for i in bad:
         r = recs[i]
